@@ -975,8 +975,9 @@ def run(ctx, corr, gama_dir, n_cases, include_f9=True, include_tiny=True, probe=
                         f"<{'obs' if c['kind'] == 'obs' else 'height-differences'}> and the parser accepts it")
             elif fam == "tiny":
                 site = "Homogenization::run"
-                what = ("non-PD return of BlockDiagonal::cholDec ignored: envelope adjusts a valid cluster with small "
-                        "cofactors (cov/sigma-apr^2 < 1e-14) differently from gso/svd/cholesky; " + ev["what"])
+                what = ("C10-TINY: BlockDiagonal::cholDec tests pivots against the ABSOLUTE tolerance 1e-14 (CovMat::cholDec: "
+                        "relative N*eps*max diag): envelope refuses / mis-adjusts a valid cluster with small cofactors "
+                        "(cov/sigma-apr^2 < 1e-14) that gso/svd/cholesky adjust; " + ev["what"])
             elif fam == "malformed":
                 site = {"obs": "GKFparser::finish_obs", "hdiffs": "GKFparser::finish_hdiffs",
                         "coords": "GKFparser::finish_coords", "vectors": "GKFparser::finish_vectors"}[c["kind"]]
